@@ -16,11 +16,13 @@ LEVEL = "exploration"
 TECHNIQUE = "stateful concurrency testing (Hypothesis-generated request histories): harness-owned cooperative scheduler with yield points on the engines' shared name counter, plus free-running threads"
 LEVEL_TEXT = (
     "Bounded exploration: histories of 4-24 name requests (get_relation_name, unnamed leaf construction, materialized()) "
-    "over 1-3 engines of both kinds, split over 2-8 threads.  Driver 1 lets real threads run freely behind a barrier "
+    "over 1-5 engines of both kinds (counters preset to digit-width boundaries), split over 2-8 threads.  Driver 1 lets real threads run freely behind a barrier "
     "with a 1 microsecond switch interval.  Driver 2 replaces relation_name_counter - the only shared mutable state - by "
     "a property whose reads and writes are yield points of a cooperative scheduler; a generated schedule decides which "
     "thread proceeds at every point, so every interleaving of counter reads and writes is a generated, shrinkable, "
-    "replayable value.  All names must be pairwise distinct and start with the requested prefix."
+    "replayable value (a picked thread that blocks on a lock inside the library is set aside, so a library that adds "
+    "locking is not an alarm).  All names must be pairwise distinct - within the history and against every name handed "
+    "out earlier in the process - and start with the requested prefix (prefixes include long, empty and underscore-ended ones)."
 )
 LEVEL_NOTE = (
     "trusts: the scheduler harness; uniqueness ultimately rests on uuid4 - a change that merely weakens the random suffix is "
@@ -29,7 +31,8 @@ LEVEL_NOTE = (
 )
 RULE = (
     "case = (engine kinds, per-thread request lists, schedule).  Oracle: all names handed out in the history (both "
-    "drivers) are pairwise distinct and each starts with its prefix followed by '_'.  Non-trivial: >= 2 threads or >= 2 "
+    "drivers) are pairwise distinct, distinct from all names of earlier histories in the same process, and each starts with "
+    "its prefix followed by '_'.  Non-trivial: >= 2 threads or >= 2 "
     "engines, >= 4 requests, and at least two requests with the same prefix observed the same counter value under the "
     "generated schedule (measured through the property getter); distinct by case digest."
 )
